@@ -241,7 +241,10 @@ def ref_value_map(t, kind, f):
         if k == "lam":
             if n[4] is None:
                 return ("lam", go(n[1]), n[2], None, None)
-            var = f(n[3]) if kind == "Identifier" else n[3]
+            var = n[3]
+            if kind == "Identifier":
+                *vns, vlast = n[3].split(".")
+                var = ".".join(vns + [f(vlast)])
             return ("lam", go(n[1]), n[2], var, go(n[4]))
         raise ValueError(n)
     return go(t)
@@ -430,6 +433,17 @@ def judge_tree(ctx, t, rng, full):
             ctx.fail(dict(case, visitor=name), "tree differs after a shipped visitor ran",
                      cls="immut", sig=["immut2", name])
             return
+
+    # 4b. a tree that has been through every shipped visitor is still traversed the same way ---
+    ctx.count("evaluations")
+    e2 = Enter()
+    e2.visit(node)
+    if len(e2.events) != len(want) or any(a is not b for a, b in zip(e2.events, want)):
+        ctx.fail(case, "after the shipped visitors ran, the default traversal of the same tree is "
+                 "no longer the depth-first pre-order (each node once)",
+                 expected=[type(n).__name__ for n in want],
+                 observed=[type(n).__name__ for n in e2.events], cls="order-after", sig=["order2"])
+        return
 
     # 5. equality == structural identity --------------------------------------------------------
     ctx.count("evaluations")
